@@ -162,7 +162,9 @@ theorem replacement_not_refused {s : Store} (hx : RX s) {f choice : String}
   · have e0 : p = fp0 := by rw [hfp] at hfp0; exact Option.some.inj hfp0
     subst e0
     have hsk := afterTakeover_skelEq s name f hx.nodupNames
-    rcases h' with ⟨np, cl, _, _, h'⟩ | ⟨e', hg, h'⟩ | ⟨w, _, h'⟩ | ⟨w, _, h'⟩ | ⟨np, _, _, h'⟩
+    rcases h' with ⟨_, h'⟩ | ⟨_, ⟨np, cl, _, _, h'⟩ | ⟨e', hg, h'⟩ | ⟨w, _, h'⟩ | ⟨w, _, h'⟩ | ⟨np, _, _, h'⟩⟩
+    · -- ordered mode: `Ok(None)`
+      rw [h'] at herr; cases herr
     · rw [h'] at herr; cases herr
     · rcases generateNewFreeProxy_err hg with ⟨_, hn⟩ | ⟨_, fp', row, hfp', hrow, hemp⟩
       · rw [findProxy_congr hsk.1 f, hfp] at hn; cases hn
@@ -198,7 +200,9 @@ theorem replacement_host {s s' : Store} (hx : RX s) {f choice addr : String}
   · have hsk := afterTakeover_skelEq s name f hx.nodupNames
     have hx2 : RX (afterTakeover s name f) := hsk.rx hx
     have hfree := afterTakeover_freeProxies hx hfp hpc
-    rcases h' with ⟨np, cl, hg, hc, h'⟩ | ⟨e, _, h'⟩ | ⟨w, _, h'⟩ | ⟨w, _, h'⟩ | ⟨np, _, _, h'⟩
+    rcases h' with ⟨_, h'⟩ | ⟨_, ⟨np, cl, hg, hc, h'⟩ | ⟨e, _, h'⟩ | ⟨w, _, h'⟩ | ⟨w, _, h'⟩ | ⟨np, _, _, h'⟩⟩
+    · -- ordered mode never installs a replacement
+      rw [h] at h'; cases h'
     · rw [h] at h'
       have hadd : addr = np.addr := by
         have := congrArg Prod.snd h'
